@@ -60,3 +60,9 @@ func VFApplyPack(dt interface{}, p *model.PushPullPack) { vfWired(dt).ApplyPushP
 
 func VFDatatypeState(dt interface{}) model.StateOfDatatype { return dt.(iface.Datatype).GetState() }
 func VFDUID(dt interface{}) string                         { return dt.(iface.Datatype).GetDUID() }
+
+// VFNotify hands a notification to the client's datatype manager (what the
+// MQTT subscription loop does).
+func VFNotify(c Client, topic string, n model.Notification) {
+	c.(*clientImpl).datatypeManager.ReceiveNotification(topic, n)
+}
